@@ -83,6 +83,10 @@ class Helper:
             raise NotInlinable('global')
         if any(not (isinstance(d, ast.Name) and d.id in ('staticmethod', 'classmethod')) for d in fdef.decorator_list):
             raise NotInlinable('decorated')
+        for c_ in ast.walk(fdef):
+            if isinstance(c_, ast.Call) and ((isinstance(c_.func, ast.Name) and c_.func.id == fdef.name and cls is None) or
+                                             (isinstance(c_.func, ast.Attribute) and c_.func.attr == fdef.name and isinstance(c_.func.value, ast.Name) and c_.func.value.id in ('self', 'cls', cls or ''))):
+                raise NotInlinable('recursive')         # a bounded unrolling is not the function
         self.params = [x.arg for x in a.args] + [x.arg for x in a.kwonlyargs]
         self.defaults = {}
         for p, d in zip([x.arg for x in a.args][len(a.args) - len(a.defaults):], a.defaults):
